@@ -421,6 +421,8 @@ def main():
         r = results[u]
         if r['kind'] == 'verus':
             for o in r['meta']['obligations']:
+                if o.get('context'):
+                    continue
                 if pspec.get('only_kinds') and o['kind'] not in pspec['only_kinds']:
                     continue
                 all_obl.append((u, o['name'], o.get('text', ''), 'verus+z3'))
@@ -444,7 +446,7 @@ def main():
             if r.get('broken'):
                 continue
             if r['kind'] == 'verus':
-                full = [o['name'] for o in r['meta']['obligations']]
+                full = [o['name'] for o in r['meta']['obligations'] if not o.get('context')]
             else:
                 full = [h['obligation'] for h in r['harnesses']] + [n for n in baseline.get(u, []) if n in ['kani/' + x for x in r.get('skipped_slow', [])]]
             baseline[u] = sorted(set(n for n in full if n not in r['failed']))
